@@ -10,14 +10,14 @@ META = dict(
               'child predicates / rank<->bit mapping (remote_dep.c compiled into the harness) are driven over N virtual ranks with a '
               'stubbed send path until quiescence; deliveries are counted per (rank, output)',
     level_text='For all roots, all families of non-empty destination sets of 1..3 outputs over N virtual ranks (quick: N<=7 for 1-2 outputs, '
-               'N<=5 for 3; thorough: N<=16 / 10 / 7 for 1 / 2 / 3 outputs, plus all sets of bounded size across the 32- and 64-rank bank boundaries) and the three topologies '
+               'N<=5 for 3; thorough: N<=15 / 9 / 6 (deadline permitting 16 / 10 / 7) for 1 / 2 / 3 outputs, plus all sets of bounded size across the 32- and 64-rank bank boundaries) and the three topologies '
                'selected through the real MCA parameter, the messages emitted by the real activation/propagation code are delivered until '
                'quiescence and every (rank, output) pair is checked to be delivered exactly once, nothing outside the sets. The chain '
                'topology with several outputs whose sets differ FAILS on the unchanged tree (known finding '
                'C13-chain-relay-missing-output): those cases are reported as KNOWN-FINDING only when every lost pair satisfies the '
                'attribution rule; anything else is a violation. Thorough adds the real 3-process MPI reproduction.',
     level_note='Handler-level model: one activation = one atomic handler call (the handlers of different messages share no state, so '
-               'delivery order is irrelevant); the per-peer payload rule of remote_dep_mpi_pack_dep (3 lines) is re-stated in the send stub; '
+               'delivery order is irrelevant); the outputs carried by a message are those selected by the real remote_dep_mpi_pack_dep (short messages off, comm-engine pack = memcpy); '
                'the root-side structure is built as parsec_release_dep_fct builds it; a receiver is always allowed to propagate (in the '
                'real runtime a receiver that waits for a never-sent output stalls instead). Real-MPI leg: one program, OpenMPI message order.',
 )
@@ -62,12 +62,12 @@ def check(ctx):
         plan = '1:2-7,2:2-7,3:2-5,2:2-5:1,2:2-5:2,1:31-33:0:2,2:33-33:0:1'
         deadline = 50
     else:
-        # all sets: 1 output N<=16, 2 outputs N<=10, 3 outputs N<=7; iterator variants; bounded set sizes across the 32/64-rank bank
+        # all sets: 1 output N<=15, 2 outputs N<=9, 3 outputs N<=6; iterator variants; bounded set sizes across the 32/64-rank bank
         # boundaries of rank_bits; then stretch bounds that the deadline may cut (reported exhaustive:false)
-        plan = ('1:2-16,2:2-10,3:2-7,2:2-8:1,2:2-8:2,3:2-5:3,1:2-10:3,'
-                '1:31-34:0:3,1:63-66:0:2,2:32-34:0:1,3:33-33:0:1,2:33-33:0:2,'
-                '1:17-18,3:8-8,2:11-11')
-        deadline = 600
+        plan = ('1:2-15,2:2-9,3:2-6,2:2-8:1,2:2-8:2,3:2-5:3,1:2-10:3,'
+                '1:31-34:0:3,1:63-66:0:2,2:32-34:0:1,3:33-33:0:1,'
+                '1:16-16,3:7-7,2:10-10')
+        deadline = 420
 
     def one(topo):
         ctx.run_engine(exe, ['--topo', str(topo), '--plan', plan, '--known-topos', str(known), '--outdir', '/verif/out',
@@ -98,7 +98,7 @@ def check(ctx):
         mp_repro.run(ctx, known, exe)
     return ctx.finish(RULE, [
         "a process that receives an activation always propagates it (the model does not stall a receiver that waits for a missing output)",
-        "payload of a message to peer p = outputs of the sender's outgoing_mask whose rank_bits contain p (rule of remote_dep_mpi_pack_dep)",
+        "a message delivers exactly the outputs that the real remote_dep_mpi_pack_dep selects for the peer (runtime_comm_short_limit = 0)",
         "PTG taskpools (DTD always uses the star predicate)",
     ])
 
